@@ -63,6 +63,24 @@ def build_points(variant, ny, nx):
     return np.array(lons), np.array(lats), accept
 
 
+def ref_cells(variant, lon, lat, ny, nx, tol):
+    """Acceptable (iy, ix) cells of an arbitrary point under the documented layout (points within tol radians of a
+    cell boundary may resolve to either side)."""
+    w, h = TWOPI / nx, np.pi / ny
+    if variant in ("plate_carree_sampler", "plate_carree_galactic_sampler"):
+        u = (np.pi - lon) % TWOPI
+    elif variant == "plate_carree_zeroright_sampler":
+        u = (TWOPI - lon) % TWOPI
+    elif variant == "plate_carree_planet_sampler":
+        u = (lon + np.pi) % TWOPI
+    else:
+        u = lon % TWOPI
+    v = np.pi / 2 - lat
+    xs = {int(np.floor(u / w)) % nx, int(np.floor((u - tol) / w)) % nx, int(np.floor((u + tol) / w)) % nx}
+    ys = {min(ny - 1, max(0, int(np.floor(t / h)))) for t in (v, v - tol, v + tol)}
+    return {(y, x) for y in ys for x in xs}
+
+
 def to_icrs(l, b):
     from astropy.coordinates import Galactic, ICRS
     import astropy.units as u
@@ -184,6 +202,50 @@ def case(job):
             if wrong:
                 bad("wrong-cell/second-request-same-endpoints", "a request with the same shape and end points as the previous one but different interior points got %d wrong cells" % len(wrong))
                 break
+    # results the caller keeps: the answer to an earlier request must not change when the sampler is asked again
+    # (same shape, other points)
+    if npts >= 4:
+        n2 = min(npts, 12)
+        try:
+            i1 = np.arange(n2)
+            i2 = (np.arange(n2) * 5 + 3) % npts
+            part.case(nontrivial=True, n=2 * n2)
+            r1 = sampler(np.array(lon[i1]), np.array(lat[i1]))
+            r1_copy = np.array(r1, copy=True)
+            r2 = sampler(np.array(lon[i2]), np.array(lat[i2]))
+            if not np.array_equal(np.asarray(r1), r1_copy):
+                bad("earlier-result-changed", "the array returned for one request changed when the sampler answered the next request of the same shape (%d values differ)" % int((np.asarray(r1) != r1_copy).sum()))
+            r2_copy = np.array(r2, copy=True)
+            other(np.array(lon[i1]), np.array(lat[i1]))
+            again[1](np.array(lon[i1]), np.array(lat[i1]))
+            if not np.array_equal(np.asarray(r2), r2_copy):
+                bad("earlier-result-changed", "the array returned for one request changed when ANOTHER sampler answered a request of the same shape")
+        except Exception as e:
+            bad("raises:%s" % type(e).__name__, repr(e))
+    # coordinates in other number types: integers (whole radians, also outside one turn) and 32-bit floats
+    if not galactic and ny * nx <= 90000:
+        li = np.array([-13, -7, -4, -1, 0, 1, 2, 3, 4, 5, 6, 7, 9, 13, 20, -20])
+        bi = np.array([-1, 0, 1, 1, 0, -1, 0, 1, -1, 0, 0, 1, -1, 0, 1, -1])
+        for tname, conv, tol in (("int64", np.int64, 1e-9), ("int32", np.int32, 1e-9), ("float32", np.float32, 4e-6), ("float64-readonly", np.float64, 1e-9)):
+            qlon, qlat = li.astype(conv), bi.astype(conv)
+            if tname.endswith("readonly"):
+                qlon.setflags(write=False)
+                qlat.setflags(write=False)
+            part.case(nontrivial=True, n=len(li))
+            try:
+                out = np.asarray(sampler(qlon, qlat))
+            except Exception as e:
+                bad("raises-on-%s-coordinates:%s" % (tname, type(e).__name__), repr(e))
+                continue
+            flat = out.reshape((len(li), 3)) if rgb else out.reshape(len(li))
+            cell = (flat[:, 0].astype(int) + 251 * flat[:, 1].astype(int)) if rgb else flat.astype(int)
+            wrong = []
+            for q in range(len(li)):
+                acc = ref_cells(variant, float(qlon[q]), float(qlat[q]), ny, nx, tol)
+                if (int(cell[q]) // nx, int(cell[q]) % nx) not in acc:
+                    wrong.append((int(li[q]), int(bi[q]), (int(cell[q]) // nx, int(cell[q]) % nx), sorted(acc)))
+            if wrong:
+                bad("wrong-cell/number-type", "coordinates given as %s: %d of %d points in the wrong cell, e.g. (lon, lat, got, layout) = %r" % (tname, len(wrong), len(li), wrong[0]))
     if not (data.dtype == pristine.dtype and np.array_equal(data, pristine)):
         bad("map-array-modified", "building or calling samplers changed the caller's map array (dtype %s -> %s, %d values differ)" % (pristine.dtype, data.dtype, int((np.asarray(data, dtype=np.float64) != np.asarray(pristine, dtype=np.float64)).sum())))
     part.sample(cfg)
@@ -197,7 +259,7 @@ def run(tier, seed):
         "5 sampler variants x map shapes (ny, nx) in %r squared (plus axis lengths 127..129, 255..257 - thorough also 32767..32769, 65535, 65536 - against a short other axis) x {scalar, RGB} x request shapes "
         "(1-D and 2-D, up to 300x300 and 70001 points, i.e. larger than and not a multiple of one tile); per cell 6 interior and 8 boundary points, "
         "each at longitude shifts of %r turns (Galactic: interior points only, after an astropy Galactic->ICRS conversion); "
-        "maps in native and big-endian byte order, three samplers built from one map array answering in turn, requests in C / Fortran / transposed / mixed memory layout; evaluations = points sampled; non-trivial = 1-pixel or odd axis, or shifted longitude" % (sizes, SHIFTS)
+        "maps in native and big-endian byte order, three samplers built from one map array answering in turn, requests in C / Fortran / transposed / mixed memory layout; results of earlier requests kept and compared after later ones; whole-radian coordinates as int64 / int32 / float32 / read-only float64 arrays against the layout formula; evaluations = points sampled; non-trivial = 1-pixel or odd axis, or shifted longitude" % (sizes, SHIFTS)
     )
     rep.assumptions = ["plate_carree_ecliptic_sampler has no documented layout in the statement and is not covered", "boundary points may resolve to any adjacent cell"]
     jobs = []
